@@ -36,11 +36,15 @@ REG_FIX = [{'SRC': {'ReasonCode': '0x8D34', 'Words6To9': {'6': {'Description': '
            {'SRC': {'ReasonCode': '0xAB34', 'Type': 'BC'}, 'Documentation': {'Message': 'hostboot %1', 'MessageArgSources': ['SRCWord7']}},
            {'SRC': {'ReasonCode': '0x7734', 'Type': 'BD'}, 'Documentation': {'Message': 'too few %1 %2', 'MessageArgSources': ['SRCWord8']}}]
 
+# component-id names exist for creators O and B only (files read by the repository's own loader); histories mix creators with and
+# without a names file, in every order
+COMP_IDS = {'O': {'2000': 'bmc error logging', '1234': 'twelve-thirtyfour', '1111': 'ones'}, 'B': {'2000': 'hb', '2222': 'twos'}}
+
 FRESH = r'''
 import sys, json
 sys.path.insert(0, %(harness)r)
 import apel
-env = apel.PluginEnv(allow=True, ud=%(ud)r, src=%(src)r, callout=%(co)r, registry=%(reg)r).install()
+env = apel.PluginEnv(allow=True, ud=%(ud)r, src=%(src)r, callout=%(co)r, registry=%(reg)r, comp_ids=%(cids)r).install()
 try:
     r = apel.real_decode(bytes.fromhex(sys.argv[1]), allow_plugins=bool(int(sys.argv[2])))
     print(json.dumps(r[:3]))
@@ -51,7 +55,7 @@ finally:
 
 def gen_step(rng):
     p = apel.gen_pel(rng, max_sections=0)
-    p['ph']['creator'] = ord(rng.choice('xxxOOB'))
+    p['ph']['creator'] = ord(rng.choice('xxxOOBMH'))
     secs = []
     for _ in range(rng.choice([1, 2, 3])):
         k = rng.choice(['ud', 'ud', 'ed', 'src'])
@@ -125,12 +129,12 @@ def run(tier, seed):
         return ck.finish(RULE, TRUSTED, ASSUME)
     rng = ck.rng
     thorough = tier == 'thorough'
-    fresh_src = FRESH % {'harness': os.path.dirname(os.path.abspath(__file__)), 'ud': UD_FIX, 'src': SRC_FIX, 'co': CO_FIX, 'reg': REG_FIX}
+    fresh_src = FRESH % {'harness': os.path.dirname(os.path.abspath(__file__)), 'ud': UD_FIX, 'src': SRC_FIX, 'co': CO_FIX, 'reg': REG_FIX, 'cids': COMP_IDS}
     tmp = tempfile.mkdtemp(prefix='c19_')
     fresh_py = os.path.join(tmp, 'fresh.py')
     open(fresh_py, 'w').write(fresh_src)
-    env_on = apel.PluginEnv(allow=True, ud=UD_FIX, src=SRC_FIX, callout=CO_FIX, registry=REG_FIX)
-    env_off = apel.PluginEnv(allow=False, ud=UD_FIX, src=SRC_FIX, callout=CO_FIX, registry=REG_FIX)
+    env_on = apel.PluginEnv(allow=True, ud=UD_FIX, src=SRC_FIX, callout=CO_FIX, registry=REG_FIX, comp_ids=COMP_IDS)
+    env_off = apel.PluginEnv(allow=False, ud=UD_FIX, src=SRC_FIX, callout=CO_FIX, registry=REG_FIX, comp_ids=COMP_IDS)
     try:
         for hnum in range(30 if thorough else 8):
             steps = [gen_step(rng) for _ in range(rng.choice([2, 5, 12, 30]))]
